@@ -35,6 +35,17 @@ KIND_ENUM = {'object': 'BINSON_TYPE_OBJECT', 'array': 'BINSON_TYPE_ARRAY', 'stri
 class StubHooks(LibHooks):
     """replaces the token loop by a summary: any (result, error) combination, everything it may write havoced"""
 
+    def on_store(self, st, r, off, size, val, ins):
+        LibHooks.on_store(self, st, r, off, size, val, ins)
+        if r.name in ('P', 'STATE'):
+            # a navigation function that changes parser state outside the token loop is not modelled by the decision tree
+            self.own_writes = getattr(self, 'own_writes', []) + ['%s+%r at %s' % (r.name, off, ins.loc())]
+
+    def on_memset(self, st, r, off, length, byte, ins):
+        LibHooks.on_memset(self, st, r, off, length, byte, ins)
+        if r.name in ('P', 'STATE'):
+            self.own_writes = getattr(self, 'own_writes', []) + ['memset %s at %s' % (r.name, ins.loc())]
+
     def stub_call(self, st, name, args, ins):
         if name != stepm.STEP_FN:
             return None
@@ -119,6 +130,8 @@ def wrapper_summary(mod, api, flags_alphabet, type_values):
                 need(len(fn.params) == len(args), 'C06: unexpected parameter list of %s' % api)
                 st.frames = [C._root_frame()]
                 outs = C.split_bool_returns(C.I.call_function(st, fn, args, None))
+                ow = getattr(hooks, 'own_writes', None)
+                need(not ow, 'C06: %s writes parser state outside the token loop (%s): its decision tree would not describe it' % (api, (ow or [''])[0]))
                 paths = []
                 for (s, rv) in outs:
                     rc = s.store.const_of(rv.a) if isinstance(rv, Int) else None
